@@ -24,9 +24,21 @@ namespace nmtools::index
         using return_t = meta::resolve_optype_t<arange_shape_t,start_t,stop_t,step_t>;
         auto ret = return_t {};
         if constexpr (!meta::is_constant_index_array_v<return_t>) {
-            // TODO: use index_type instead of size_t
-            size_t d = ceil_(float(stop - start) / step);
-            at(ret,0) = d;
+            if constexpr (meta::is_floating_point_v<start_t> || meta::is_floating_point_v<stop_t> || meta::is_floating_point_v<step_t>) {
+                // TODO: use index_type instead of size_t
+                size_t d = ceil_(float(stop - start) / step);
+                at(ret,0) = d;
+            } else {
+                // integer arithmetic: float is not exact above 2^24; an empty range has length 0
+                using index_t = long long;
+                auto m_step = static_cast<index_t>(step);
+                auto range  = static_cast<index_t>(stop) - static_cast<index_t>(start);
+                if (m_step < 0) {
+                    range  = -range;
+                    m_step = -m_step;
+                }
+                at(ret,0) = (range > 0) ? static_cast<size_t>((range + m_step - 1) / m_step) : size_t{0};
+            }
         }
         return ret;
     } // arange_shape
